@@ -740,8 +740,8 @@ def run(ctx):
     rng = ctx.rng
     cases = corpus_cases()
     cases += list(exhaustive_chain_orders())
-    nplain = ctx.budget(1800, 30000)
-    nchain = ctx.budget(300, 4000)
+    nplain = ctx.budget(1800, 12000)
+    nchain = ctx.budget(300, 2000)
     maxops = 20
     for _ in range(nplain):
         cases.append(gen_plain(rng, maxops))
